@@ -26,10 +26,6 @@ DECIDED = ["R24a every route is authenticated (TABLE over the router constructio
            "R24e (MIR part) readers get the read lock and an immutable transaction",
            "R24f logout / role removal reach the removing primitive on every success path (MUST)"]
 UNDECIDED = ["correctness of the graph searches implementing role look-up over histories of role changes (C14/C15/C17)",
-             "the value of the promoted constant the role is compared with (`DbUserRole::Read`): promoted MIR bodies are "
-             "not part of the facts; the rule decides that the role / required role is compared with a DbUserRole "
-             "constant and that the effect lies on the frozen edge of that comparison",
-             "R24e compile-fail witness (built separately)",
              "routes behind the `studio` cargo feature (not part of the analysed configuration)",
              "routes::user::logout / cluster::logout with `?session=<id>` remove the session with that id without "
              "checking that it belongs to the caller (session ids are random and only shown to their owner / the admin)"]
@@ -453,8 +449,19 @@ class H:
             if w is None:
                 return False
             ds = cfg.defs(b).get(w[0], [])
-            return (len(ds) == 1 and ds[0][0] == "assign" and ds[0][2]["k"] == "use" and
-                    bool(cfg.op_const(ds[0][2]["o"])) and spec[1] in cfg.op_const(ds[0][2]["o"]).get("ty", ""))
+            if not (len(ds) == 1 and ds[0][0] == "assign" and ds[0][2]["k"] == "use" and
+                    bool(cfg.op_const(ds[0][2]["o"])) and spec[1] in cfg.op_const(ds[0][2]["o"]).get("ty", "")):
+                return False
+            if len(spec) > 2:
+                # the enum variant of the promoted constant (`&DbUserRole::Read` is `<owner>::promoted[n]`)
+                c = cfg.op_const(ds[0][2]["o"]).get("c", "")
+                pb = self.fa.promoted.get(b.crate + "::" + c) if hasattr(self, "fa") else None
+                if pb is None:
+                    return False
+                variants = [s["r"].get("variant") for bi, s in cfg.assigns(pb) if s["r"]["k"] == "agg" and
+                            s["r"].get("adt", "").endswith(spec[1].split("::")[-1])]
+                return variants == [spec[2]]
+            return True
         return False
 
     def find_calls(self, callee, argspecs):
@@ -561,7 +568,7 @@ DB_ID = res("user_db_id", "user", "owner", "db")
 DATABASE = res("user_db", "user", "owner", "db")
 ROLE = res("user_db_role", "user", "owner", "db")
 REQ_ROLE = res("agdb_server::utilities::required_role", "queries")
-ROLE_CONST = ("const", "agdb_api::DbUserRole")
+ROLE_CONST = ("const", "agdb_api::DbUserRole", "Read")
 
 # guard constructors (evaluated against a handler H)
 def TRY(callee, *args):
